@@ -160,7 +160,8 @@ def sliced_part(chk, thorough):
   from ml_metrics._src.chainables import io, transform
 
   def batches(n):
-    return [{'a': [i % 2, (i + 1) % 3 % 2], 'b': [10 * i, 10 * i + 1]} for i in range(n)]
+    # the slice value 7 occurs in the last batch only: with shards, the first shard's state has never seen that slice
+    return [{'a': [i % 2, 7 if i == n - 1 else (i + 1) % 3 % 2], 'b': [10 * i, 10 * i + 1]} for i in range(n)]
 
   def build(form, n, threads):
     kw = dict(num_threads=threads) if threads else {}
@@ -234,12 +235,24 @@ def fusing_part(chk):
     b = transform.TreeTransform.new(name=n2).aggregate(fn=lib.CollectRows(), input_keys='y', output_keys='s2')
     return a.chain(b)
 
+  ROWS = [{'x': [i % 2, 1], 'y': [i, i + 10]} for i in range(4)]
+
+  def two_aggs_same_slicer(n1, n2):
+    # both aggregates hang off one sliced base (the SAME slicer object: two slicers built alike do not compare equal)
+    base = transform.TreeTransform.new(name=n1).add_slice('x')
+    a = base.add_aggregate(fn=lib.CollectRows(), input_keys='y', output_keys='s1')
+    b = (base if n1 == n2 else transform.TreeTransform.new(name=n2).add_slice('x')).add_aggregate(fn=lib.CollectRows(), input_keys='y', output_keys='s2')
+    return a.chain(b)
+
   def result(p):
-    it = p.make().iterate()
+    it = p.make().iterate(ROWS) if explicit_rows[0] else p.make().iterate()
     outs = [repr(x) for x in it]
     return outs, sorted((repr(k), repr(v)) for k, v in dict(it.agg_result or {}).items())
 
-  for name, mk in (('aggregate-then-apply', agg_then_apply), ('two-aggregates-one-sliced', two_aggs)):
+  explicit_rows = [False]
+  for name, mk in (('aggregate-then-apply', agg_then_apply), ('two-aggregates-one-sliced', two_aggs),
+                   ('two-aggregates-sliced-alike', two_aggs_same_slicer)):
+    explicit_rows[0] = mk is two_aggs_same_slicer
     ref = result(mk('a', 'b'))
     ctx = dict(kind='exec-strategy-fusing', pipeline=name)
     chk.replayed()
